@@ -165,3 +165,7 @@ B1_BY_PROP = {
 }
 for p, b in B1_BY_PROP.items():
     PLANS[p]["b1"] = b
+
+# ---- the recorded defects, as found by TLC on the specification (counterexamples of MC_ttl_D* / MC_known_D*) and replayed on the code
+for p in ["C01", "C03", "C05", "C07", "C08", "C09", "C10"]:
+    PLANS[p]["fixed"] = {"quick": ["scenarios/known.ndjson"], "thorough": ["scenarios/known.ndjson"]}
